@@ -31,6 +31,13 @@ from ._bucket import BucketOutput
 
 default_array_size = Multiply(IntegerLiteral(1024), IntegerLiteral(1024))
 
+# Verification hook (off unless TENSORA_VERIF_INITIAL_CAPACITY is set): start growable output arrays
+# at a small capacity so that growth paths run on small inputs.
+import os as _os  # noqa: E402
+
+if _os.environ.get("TENSORA_VERIF_INITIAL_CAPACITY"):
+    default_array_size = IntegerLiteral(int(_os.environ["TENSORA_VERIF_INITIAL_CAPACITY"]))
+
 
 @dataclass(frozen=True, slots=True)
 class AppendOutput(Output):
